@@ -129,6 +129,21 @@ def main(ctx: Ctx) -> None:
                 "config-file discovery order, toml `overrides` destructuring (exercised by the parsed-sections search)")
     ctx.assume("section patterns have components that are `*` or star-free names with all characters above '.' "
                "(what parse_config_file admits for identifiers); option keys do not start with an underscore")
+    ctx.coverage["covered_by_theorem"] = [
+        "per-module resolution = documented precedence for every section table, module and option (resolution_matches_doc, "
+        "resolution_first_defined, resolution_error_codes, structured_inherit, full_precedence)",
+        "compile_glob's regex = component-wise matching on dotted names (glob_correct); section names ↔ component lists (section_names_faithful)",
+        "inline comments on top / later comment wins; command line over [mypy] over defaults for store-type flags",
+        "over the regenerated tables: cli_ini_agree, dest_settable, toml_ini_same_keys, per_module_flags_inline_ok, strict_flags_ok, "
+        "list_options_typed_partial (+ not_list_options_typed: deprecated_calls_exclude)"]
+    ctx.coverage["validated_by_correspondence"] = [
+        "models of clone_for_module / compile_glob / parse_section keys / invert_flag_name / parse_mypy_comments merging / "
+        "process_options order vs the real functions, on the generated inputs counted in `distribution`"]
+    ctx.coverage["searched_only"] = [
+        "value converters of non-Boolean options (one sample value per option: command line vs mypy.ini / setup.cfg / pyproject.toml)",
+        "config files read back through configparser / tomllib (section order → dict order, overrides tables)",
+        "effect on diagnostics (witness package; sampled flags in the quick tier, all checker flags in the thorough tier)",
+        "locality of per-module sections"]
     found = False
     if not proved:
         found = obligations_search(ctx, tables)
